@@ -13,6 +13,7 @@ import (
 	"github.com/rulego/streamsql/logger"
 	"github.com/rulego/streamsql/rsql"
 	"github.com/rulego/streamsql/stream"
+	"github.com/rulego/streamsql/types"
 )
 
 // C07 — post-aggregation clauses apply in relational order to each emitted batch.
@@ -27,6 +28,10 @@ import (
 //	        GroupByKeys cleared (public config field), so a batch of N events holds several groups.
 //	e2e     streamsql.New().Execute(sql) + Emit: CountingWindow(N) is keyed by the GROUP BY column,
 //	        every batch is one group.
+//
+//	sorter  no query: rows with missing / numeric / bool / text cells are sorted by the real
+//	        stream.NewSorter(keys).Sort (public) — the key shapes a grouped query cannot produce
+//	        (a key missing in some rows only, bool and text keys).
 //
 // win/e2e never sleep-and-assert: every batch is followed by a sentinel batch (group "~s") whose
 // values the generator chose so that HAVING accepts it; the deliveries seen before the sentinel's
@@ -43,6 +48,18 @@ func (c07) Count(tier string) int {
 }
 
 const c07Sentinel = "~s"
+
+// c07Lost counts sentinels that never arrived. A lost sentinel means the pipeline is broken (the
+// sentinel batch passes HAVING by construction); after a few of them the wait is shortened so a
+// badly broken tree is reported in seconds instead of timing out case by case.
+var c07Lost int
+
+func c07SentinelWait() time.Duration {
+	if c07Lost >= 3 {
+		return 250 * time.Millisecond
+	}
+	return 15 * time.Second
+}
 
 var c07Cols = []string{"a", "b", "t"}
 
@@ -452,6 +469,9 @@ func c07Groups(rows []c07Row) [][]c07Row {
 }
 
 func (c07) Gen(rng *rand.Rand, tier string, idx int) Case {
+	if idx%8 == 7 {
+		return c07GenSorter(rng)
+	}
 	var c Case
 	q := &c07Query{limit: -1, lower: rng.Intn(4) == 0, compact: rng.Intn(4) == 0}
 	stat := map[string]bool{}
@@ -714,6 +734,12 @@ func c07ParseVal(tok string) (interface{}, bool) {
 			panic("bad float token " + tok)
 		}
 		return math.Float64frombits(b), true
+	case strings.HasPrefix(tok, "i:"):
+		n, err := strconv.Atoi(tok[2:])
+		if err != nil {
+			panic("bad int token " + tok)
+		}
+		return n, true
 	case strings.HasPrefix(tok, "s:"):
 		return unhx(tok[2:]), true
 	case tok == "b:t":
@@ -806,6 +832,9 @@ func c07IsSentinel(b []map[string]interface{}) bool {
 func (c07) Exec(c Case) [][][]string {
 	sql := unhx(c07CfgVal(c, "sql"))
 	mode := c07CfgVal(c, "mode")
+	if mode == "sorter" {
+		return c07ExecSorter(c)
+	}
 	var cols []string
 	for _, l := range c.Cfg {
 		if l[0] == "cols" {
@@ -872,6 +901,7 @@ func (c07) Exec(c Case) [][][]string {
 	}
 
 	var out [][][]string
+	caseLost := false
 	for _, op := range c.Ops {
 		if op[0] != "batch" {
 			out = append(out, [][]string{{"bad-op"}})
@@ -900,8 +930,12 @@ func (c07) Exec(c Case) [][][]string {
 		for _, r := range sent {
 			emit(r)
 		}
+		if caseLost { // the stream's position is unknown after a lost sentinel
+			out = append(out, [][]string{{"sentinel-lost"}})
+			continue
+		}
 		lost := false
-		deadline := time.After(5 * time.Second)
+		deadline := time.After(c07SentinelWait())
 	wait:
 		for {
 			select {
@@ -918,8 +952,106 @@ func (c07) Exec(c Case) [][][]string {
 		lines := c07DeliveryLines(deliveries)
 		if lost {
 			lines = append(lines, []string{"sentinel-lost"})
+			caseLost = true
+			c07Lost++
 		}
 		out = append(out, lines)
+	}
+	return out
+}
+
+// ---------------------------------------------------------------- the sorter alone
+
+func c07GenSorter(rng *rand.Rand) Case {
+	var c Case
+	c.Cfg = append(c.Cfg, []string{"mode", "sorter"})
+	ncols := 1 + rng.Intn(3)
+	kinds := make([]string, ncols)
+	cols := make([]string, ncols)
+	for i := range cols {
+		cols[i] = fmt.Sprintf("k%d", i)
+		kinds[i] = []string{"num", "num", "bool", "text"}[rng.Intn(4)]
+		c.Stat = append(c.Stat, "sorter-key:"+kinds[i])
+	}
+	nkeys := 1 + rng.Intn(ncols)
+	for i := 0; i < nkeys; i++ {
+		c.Cfg = append(c.Cfg, []string{"order", hx(cols[i]), []string{"a", "d"}[rng.Intn(2)]})
+	}
+	texts := []string{"", "a", "ab", "b", "B", "10", "9", "<"}
+	for b := 0; b < 3; b++ {
+		n := rng.Intn(8)
+		op := []string{"sort", strconv.Itoa(n), strconv.Itoa(ncols)}
+		for _, cn := range cols {
+			op = append(op, hx(cn))
+		}
+		for r := 0; r < n; r++ {
+			for i := range cols {
+				if rng.Intn(4) == 0 {
+					op = append(op, "m")
+					continue
+				}
+				switch kinds[i] {
+				case "num":
+					if rng.Intn(2) == 0 {
+						op = append(op, "i:"+strconv.Itoa(rng.Intn(5)-2))
+					} else {
+						op = append(op, c07Fbits([]float64{-1.5, 0, 0.5, 1, 2, 1e9}[rng.Intn(6)]))
+					}
+				case "bool":
+					op = append(op, "b:"+btok(rng.Intn(2) == 0))
+				default:
+					if rng.Intn(6) == 0 {
+						op = append(op, "n")
+					} else {
+						op = append(op, "s:"+hx(texts[rng.Intn(len(texts))]))
+					}
+				}
+			}
+		}
+		c.Ops = append(c.Ops, op)
+	}
+	return c
+}
+
+func c07ExecSorter(c Case) [][][]string {
+	var keys []types.OrderByField
+	for _, l := range c.Cfg {
+		if l[0] == "order" {
+			dir := types.SortAsc
+			if l[2] == "d" {
+				dir = types.SortDesc
+			}
+			keys = append(keys, types.OrderByField{Expression: unhx(l[1]), Direction: dir})
+		}
+	}
+	var out [][][]string
+	for _, op := range c.Ops {
+		if op[0] != "sort" {
+			out = append(out, [][]string{{"bad-op"}})
+			continue
+		}
+		n, _ := strconv.Atoi(op[1])
+		nc, _ := strconv.Atoi(op[2])
+		cols := make([]string, nc)
+		for i := range cols {
+			cols[i] = unhx(op[3+i])
+		}
+		toks := op[3+nc:]
+		rows := make([]map[string]interface{}, n)
+		for r := range rows {
+			rows[r] = map[string]interface{}{"id": r}
+			for i, cn := range cols {
+				if v, ok := c07ParseVal(toks[r*nc+i]); ok {
+					rows[r][cn] = v
+				}
+			}
+		}
+		stream.NewSorter(keys).Sort(rows)
+		line := []string{"order"}
+		for _, r := range rows {
+			line = append(line, strconv.Itoa(r["id"].(int)))
+		}
+		out = append(out, [][]string{line})
 	}
 	return out
 }
